@@ -34,7 +34,10 @@ RULE = ('geometry family x operation x argument, crossed completely: refine(regi
         'split_column every quadrilateral x node; decompose_columns and triangulate_column on every polygon built '
         'from a triangle/quadrilateral/pentagon plus every admissible assignment of 0, 1 or 2 straight mid-side '
         'node x every rotation of the node list, inside a ring of neighbours; refine_layers every layer subset x '
-        'factor 2,3,4.  A case is non-trivial when the operation changed the geometry; distinct = distinct '
+        'factor 2,3,4; two-step compositions judged against the ORIGINAL columns: split_column then '
+        'triangulate_column / refine (3 modes) of each piece and of both, refine of every single column (4 modes) then '
+        'refine (2 modes) of each new column and of all, triangulate_column / decompose_columns of the polygons then '
+        'refine of the pieces.  A case is non-trivial when the operation changed the geometry; distinct = distinct '
         '(geometry, operation, canonical argument)')
 ASSUMPTIONS = [
     'reference geometry = ref/geomodel.py on node coordinates converted exactly to Fractions; comparisons of areas '
@@ -55,7 +58,8 @@ BOUNDS = {
     'quick': {'geometries': ['r3x3', 't8', 'mixed6', 'polygons', 'layers', 'r3x3+refined(sample)', 'g7(sample)'],
               'regions': 'every non-empty subset (r3x3: 511, t8: 255); samples: singles on a stride, one pair/disk/ring, full',
               'polygons': 'all 1253 (base, 0..2 mid-side nodes per side, rotation) x {decompose_columns, triangulate_column}',
-              'layers': 'every subset of 3 and of 4 layers x factor 2,3,4, also with the atmosphere layer named like a subsurface layer'},
+              'layers': 'every subset of 3 and of 4 layers x factor 2,3,4, also with the atmosphere layer named like a subsurface layer',
+              'compositions': 'split> on r3x3, mixed6; refine>refine on r3x3, t8 singles; polygon>refine at rotation 0, piece 0 and all'},
     'thorough': {'geometries': ['r3x3', 'r4x3', 't8', 'mixed6', 'mixed6+decomposed', 'polygons', 'layers',
                                 'r3x3+refined', 'r4x3+refined', 't8+refined', 'g7', 'g7+refined(sample)'],
                  'regions': 'every non-empty subset where <= 12 columns (511 / 4095 / 255 / 4095); larger: all singles, '
